@@ -193,12 +193,21 @@ func (s *Solver) roundTrip(cmd string) ([]string, error) {
 	if err := s.flush(); err != nil {
 		return nil, err
 	}
+	// hard wall-clock limit: a solver that ignores its own time-out (z3 4.8 inside floating-point bit-blasting ran for
+	// three hours on one query) is killed; the query is then unknown and the worker starts a fresh process
+	limit := time.Duration(2*s.timeout+10000) * time.Millisecond
+	watchdog := time.AfterFunc(limit, func() {
+		if s.cmd != nil && s.cmd.Process != nil {
+			s.cmd.Process.Kill()
+		}
+	})
+	defer watchdog.Stop()
 	var lines []string
 	for {
 		line, err := s.out.ReadString('\n')
 		if err != nil {
 			s.dead = true
-			return lines, fmt.Errorf("solver closed: %v", err)
+			return lines, fmt.Errorf("solver closed or killed after %v: %v", limit, err)
 		}
 		line = strings.TrimRight(line, "\r\n")
 		t := strings.Trim(line, "\"")
